@@ -6,8 +6,16 @@ import numpy as np
 
 from common import R, Ro, fl
 
-LEAN_MODULES = ["PyomaVerif.Props.C20", "PyomaVerif.Props.C20Extract", "PyomaVerif.Mutants.C20"]
+from common import wiring_pre_build as pre_build  # noqa: E402,F401  (regenerates Generated/Wiring.lean from the tested tree)
+
+LEAN_MODULES = ["PyomaVerif.Props.C20", "PyomaVerif.Props.C20Extract", "PyomaVerif.Mutants.C20", "PyomaVerif.Props.WiringPlot", "PyomaVerif.Props.WiringClass"]
 THEOREMS = [
+    # class-layer wiring, regenerated from /repo on every run (translate_wiring.py)
+    "PV.WiringPlot.C20_plot_stab_wiring",
+    "PV.WiringPlot.C20_plot_cluster_wiring",
+    "PV.WiringPlot.C20_plot_cmif_wiring",
+    "PV.WiringPlot.C20_plot_stores_nothing",
+    "PV.WiringClass.C20_plot_inherited",
     "PV.C20.flattenF_index",
     "PV.C20.flattenF_length",
     "PV.C20.C20_stab_raw",
